@@ -1,4 +1,5 @@
 import MakoModel.Filters.LemmasHandler
+import MakoModel.Filters.Sites
 /-!
 # C10 – escaping filters neutralise markup for every input and are invertible
 
@@ -225,6 +226,42 @@ theorem htmlentityreplace_total_and_faithful (enc : Char → Bool)
     exact refOut_encodable enc hascii s x hx
   · intro c _ hc
     exact htmlentityreplace_refs_decode c (unencodable_nonascii enc hascii c hc)
+
+/-! ## Application sites: `${e | f}`, `default_filters`, `filter=` on `<%def>` / `<%block>` × plain / buffered / cached -/
+
+open MakoModel.Filters.Sites in
+/-- at every site, in every mode (`buffered=`, `cached=`, both, neither), on the first render and on a cache hit,
+the tag's filter is applied exactly once to the body text (followed by `buffer_filters` iff the callable is
+buffered); without `filter=` the text is not touched by it -/
+theorem filter_once_at_every_site (site : Site) (f bufF : List Char → List Char) (t : List Char) :
+    renderTwice site f bufF t =
+      (site.post bufF (if site.filtered then f t else t), site.post bufF (if site.filtered then f t else t)) :=
+  renderTwice_eq site f bufF t
+
+open MakoModel.Filters.Sites in
+/-- hence whatever a filter guarantees about (input, output) holds at every site that carries it, for the first
+render and for every cache hit (default `buffer_filters`, i.e. none) -/
+theorem guarantee_at_every_site (P : List Char → List Char → Prop) (f : List Char → List Char)
+    (hP : ∀ t, P t (f t)) (site : Site) (hsite : site.filtered = true) (t : List Char) :
+    P t (renderTwice site f id t).1 ∧ P t (renderTwice site f id t).2 := by
+  have hpost : ∀ s, site.post id s = s := by
+    intro s; cases site with
+    | expr => rfl
+    | defLike fl => simp [Site.post]
+  rw [filter_once_at_every_site, hsite]
+  simp only [if_true, hpost]
+  exact ⟨hP t, hP t⟩
+
+open MakoModel.Filters.Sites in
+/-- instance: the text produced by `filter="x"` on a cached (or buffered, or plain) def or block is markup-free on
+the first render and on every hit -/
+theorem xml_no_markup_at_every_site (site : Site) (hsite : site.filtered = true) (t : List Char) :
+    (∀ c ∈ (renderTwice site xmlEscape id t).1, c ∉ Spec.markup) ∧
+    (∀ c ∈ (renderTwice site xmlEscape id t).2, c ∉ Spec.markup) :=
+  guarantee_at_every_site (fun _ o => ∀ c ∈ o, c ∉ Spec.markup) xmlEscape (fun t => (xml_no_markup t).1) site hsite t
+
+/-- `site.filtered = true` is satisfiable by the site the seeded defect C10g concerned -/
+example : (Sites.Site.defLike ⟨false, true, true⟩).filtered = true := rfl
 
 /-! ## Non-vacuity: the hypotheses above are satisfiable by non-trivial instances -/
 
